@@ -110,14 +110,20 @@ NextCase ==
      IN PrintT(<<"VERDICT", ToJson([id |-> r.id, iid |-> r.iid, g |-> r.g, partial |-> r.partial,
                                      nev |-> Len(r.ev), mon |-> Monitors(r, prev)])>>)
 
+\* the layout parser is not logged; that it ran is inferred from the logged context
+\* position having moved past the end of the last shifted token
+WithLayout(c, e) ==
+  IF Tab.augl >= 0 /\ e.k = "r" /\ e.cp > c.ce THEN LayoutParsed(c, e.cp) ELSE c
+
 Event ==
   /\ ci >= 1
   /\ k <= Len(Case.ev)
-  /\ LET good == cf.status = "run" /\ EventOK(Tab, cf, Case.ev, k)
+  /\ LET c1 == WithLayout(cf, Case.ev[k])
+         good == cf.status = "run" /\ EventOK(Tab, c1, Case.ev, k)
      IN /\ div' = IF div = "" /\ ~good
                   THEN ToJson([id |-> Case.id, iid |-> Case.iid, at |-> k, ev |-> Case.ev[k].k]) ELSE div
         /\ cf' = IF cf.status = "run" /\ (Case.ev[k].k = "r" \/ FirstAction(Tab, cf, Case.ev[k].t).k = "s")
-                 THEN Apply(Tab, cf, Case.ev[k]) ELSE [cf EXCEPT !.status = "lost"]
+                 THEN Apply(Tab, c1, Case.ev[k]) ELSE [cf EXCEPT !.status = "lost"]
         /\ (IF div = "" /\ ~good
             THEN PrintT(<<"DIVERGENCE", ToJson([id |-> Case.id, iid |-> Case.iid, at |-> k, ev |-> Case.ev[k].k])>>)
             ELSE TRUE)
